@@ -278,15 +278,24 @@ func (e *c18Env) call(tc *c18Case, icpt string, st bool) (obs c18Obs, lg hLog, i
 			cl = 0
 		}
 		res = doHTTP(m, "POST", shapeRoute[tc.Shape], "", http.Header{"Content-Type": {"application/protobuf"}}, reqBody{Data: body, CL: cl})
-	case "grpc", "web":
+	case "grpc", "web", "grpc-gzip", "web-gzip":
 		var body []byte
-		for _, p := range pbs {
-			body = append(body, wire.GRPCFrame(0, p)...)
+		var hdr http.Header
+		gz := strings.HasSuffix(tc.Proto, "-gzip")
+		if gz {
+			hdr = http.Header{"Grpc-Encoding": {"gzip"}, "Grpc-Accept-Encoding": {"gzip"}}
 		}
-		if tc.Proto == "grpc" {
-			res = doGRPC(m, full, "application/grpc", nil, reqBody{Data: body})
+		for _, p := range pbs {
+			if gz {
+				body = append(body, wire.GRPCFrame(1, gzipBytes(p))...)
+			} else {
+				body = append(body, wire.GRPCFrame(0, p)...)
+			}
+		}
+		if strings.HasPrefix(tc.Proto, "grpc") {
+			res = doGRPC(m, full, "application/grpc", hdr, reqBody{Data: body})
 		} else {
-			res = doWeb(m, full, "application/grpc-web+proto", nil, reqBody{Data: body})
+			res = doWeb(m, full, "application/grpc-web+proto", hdr, reqBody{Data: body})
 		}
 	case "ws":
 		var frames []byte
@@ -492,12 +501,16 @@ func (e *c18Env) exec(tc *c18Case) (oracle, note string) {
 
 func c18Cases(thorough bool) []c18Case {
 	var out []c18Case
-	for _, p := range []string{"http-json", "http-proto", "grpc", "web", "ws"} {
+	for _, p := range []string{"http-json", "http-proto", "grpc", "web", "grpc-gzip", "web-gzip", "ws"} {
 		for _, sh := range []string{"unary", "cs", "ss", "bidi"} {
 			if p == "ws" && sh == "cs" {
 				continue
 			}
-			for _, sz := range []int{0, 1, 2, 3, 4, 5, 6, 100} {
+			sizes := []int{0, 1, 2, 3, 4, 5, 6, 100}
+			if thorough {
+				sizes = append(sizes, 7, 8, 9, 125, 126, 127, 128, 129, 1000, 5000, 16384, 70000)
+			}
+			for _, sz := range sizes {
 				for _, fail := range []bool{false, true} {
 					for _, ic := range []string{"none", "pass", "reply", "error", "short"} {
 						for _, st := range []bool{false, true} {
@@ -505,7 +518,7 @@ func c18Cases(thorough bool) []c18Case {
 								continue
 							}
 							for _, md := range []bool{false, true} {
-								if md && sz != 0 && sz != 5 {
+								if md && sz != 0 && sz != 5 && !thorough {
 									continue
 								}
 								out = append(out, c18Case{Proto: p, Shape: sh, Size: sz, Fail: fail, Icpt: ic, Stats: st, MD: md})
@@ -517,7 +530,11 @@ func c18Cases(thorough bool) []c18Case {
 		}
 	}
 	for _, sh := range []string{"get", "get-ss", "raw", "sel", "up"} {
-		for _, sz := range []int{0, 1, 5, 100, 5000} {
+		sizes := []int{0, 1, 5, 100, 5000}
+		if thorough {
+			sizes = append(sizes, 2, 3, 4, 127, 128, 1000, 4095, 4096, 4097, 16384, 70000, 300000)
+		}
+		for _, sz := range sizes {
 			for _, fail := range []bool{false, true} {
 				for _, ic := range []string{"none", "pass", "reply", "error", "short"} {
 					for _, st := range []bool{false, true} {
@@ -535,7 +552,7 @@ func c18Cases(thorough bool) []c18Case {
 
 func runC18(c *Ctx) {
 	r := c.Run
-	r.Rule("protocol{HTTP json, HTTP protobuf, gRPC, gRPC-web, WebSocket} × shape{unary, client-, server-, bidi-streaming; and for HTTP transcoding also: URL-only GET (unary and server-streaming), google.api.HttpBody request+response, streamed HttpBody upload, response_body selector} × payload size{0,1,2,3,4,5,6,100} (total message sizes from 0 bytes upward, incl. an empty second message) × handler{ok, fails} × interceptor{none, pass-through, replaces the reply, replaces the error, short-circuits} × stats handler{off,on} × handler metadata{none, header+trailer}; each compared with the same call on a mux without options; distinct = all case parameters")
+	r.Rule("protocol{HTTP json, HTTP protobuf, gRPC, gRPC-web, gRPC and gRPC-web with gzip negotiated, WebSocket} × shape{unary, client-, server-, bidi-streaming; and for HTTP transcoding also: URL-only GET (unary and server-streaming), google.api.HttpBody request+response, streamed HttpBody upload, response_body selector} × payload size{0,1,2,3,4,5,6,100} (total message sizes from 0 bytes upward, incl. an empty second message) × handler{ok, fails} × interceptor{none, pass-through, replaces the reply, replaces the error, short-circuits} × stats handler{off,on} × handler metadata{none, header+trailer}; each compared with the same call on a mux without options; distinct = all case parameters")
 	r.Assume("payload events are not demanded on WebSocket (the property lists HTTP transcoding, gRPC and gRPC-web)", "the framing of an error after HTTP stream messages is not demanded")
 	cases := c18Cases(c.Thorough())
 	envs := make([]*c18Env, explore.Workers)
